@@ -175,9 +175,22 @@ func jobsFor(prop, tier string) []*Job {
 		if thorough {
 			k = 4
 		}
-		add(&Job{Name: fmt.Sprintf("O1-selfcomp-rate/k=%d,nsrc=3,cap=3", k), Pkg: "ratelimit", Harness: "VerifC14SelfComp", Grid: 1e9,
-			Params: p("k", k, "nsrc", 3, "capacity", 3, "average", 1, "burst", 2, "maxgap", 14, "t0span", 3), TimeoutS: 120,
-			Bounds: fmt.Sprintf("rate limiter 1/s burst 2, capacity 3, %d requests from 3 sources chosen symbolically, symbolic amounts and gaps (up to 15 s, beyond the entry lifetime): source A's decisions equal those it gets alone", k)})
+		caps := []int{2, 3}
+		for _, c := range caps {
+			add(&Job{Name: fmt.Sprintf("O3-evict/capacity=%d", c), Pkg: "internal/holsterv4/collections", Harness: "VerifC14Evict", Grid: 1e9, Params: p("capacity", c, "t0span", 3), TimeoutS: 120,
+				Bounds: fmt.Sprintf("TTL map of capacity %d filled through the API with symbolic ttls (1..20 s) at symbolic instants, symbolic later instant, then Set of a new key (eviction) or of an existing key (update); representation invariant (heap order, index fields, key<->element bijection) asserted before and after", c)})
+		}
+		add(&Job{Name: "O2-connlimit-frame", Pkg: "connlimit", Harness: "VerifC04Step", Inductive: true,
+			Bounds: "one acquire/release for a symbolic source from an arbitrary consistent state (3 sources): the decision depends only on that source's own count and the other sources' entries are untouched"})
+		nsrc := 2
+		if thorough {
+			nsrc = 3
+		}
+		if thorough {
+			add(&Job{Name: fmt.Sprintf("O1-selfcomp-rate/k=%d,nsrc=%d,cap=3", k, nsrc), Pkg: "ratelimit", Harness: "VerifC14SelfComp", Grid: 1e9,
+			Params: p("k", k, "nsrc", nsrc, "capacity", 3, "average", 1, "burst", 2, "maxgap", 14, "t0span", 3), TimeoutS: 120, BranchTimeoutS: 4, IncMs: 1500,
+			Bounds: fmt.Sprintf("rate limiter 1/s burst 2, capacity 3, %d requests from %d sources chosen symbolically, symbolic amounts and gaps (up to 15 s, beyond the entry lifetime): source A's decisions equal those it gets alone", k, nsrc)})
+		}
 	}
 	return js
 }
